@@ -174,10 +174,19 @@ def rule_z1(repo):
     # by a quantifier the constant would be the same for every value of the bound variable
     def registrations(test):
         reg = set()
+        # the name that is registered must be the name of the variable the body is opened with
+        # (`v = Var(nm, ..)`): the original binder name differs from it whenever a variant was chosen
+        opened = set()
         for n in _region(cfg, test):
             if n.kind == 'stmt':
                 for c in ast.walk(n.ast):
-                    if isinstance(c, ast.Call) and call_attr(c) in ('add', 'append') and isinstance(c.func.value, ast.Name) and c.args:
+                    if isinstance(c, ast.Call) and call_name(c) in ('Var', 'term.Var') and c.args and isinstance(c.args[0], ast.Name):
+                        opened.add(c.args[0].id)
+        for n in _region(cfg, test):
+            if n.kind == 'stmt':
+                for c in ast.walk(n.ast):
+                    if isinstance(c, ast.Call) and call_attr(c) in ('add', 'append') and isinstance(c.func.value, ast.Name) and c.args and \
+                            isinstance(c.args[0], ast.Name) and c.args[0].id in opened:
                         reg.add(c.func.value.id)
         # only names registered before the body of the quantifier is translated
         return reg
